@@ -1,0 +1,28 @@
+//go:build verif
+
+// Machine-checked contracts for package net (comment-only; build tag "verif").
+// Read by /verif/bin/nriverif.
+
+package net
+
+// Both ends of a plugin's socket pair are created close-on-exec (AF_UNIX = 1,
+// SOCK_STREAM|SOCK_CLOEXEC = 1|0x80000), so that nothing but the end passed explicitly as an
+// extra file is inherited by a launched plugin (C18).
+//@ func newSocketPairCLOEXEC
+//@   props C18
+//@   modifies @writes
+//@   at call golang.org/x/sys/unix.Socketpair assert arg0 == 1 && arg1 == 524289 && arg2 == 0
+//@   ensures [once] ncalls("golang.org/x/sys/unix.Socketpair") == old(ncalls("golang.org/x/sys/unix.Socketpair")) + 1
+
+//@ func NewSocketPair
+//@   props C18
+//@   modifies @writes
+//@   ensures true
+//@ func SocketPair.LocalConn
+//@   props C18
+//@   modifies @writes
+//@   ensures result.1 == nil ==> result.0 != nil
+//@ func SocketPair.Close
+//@   props C18
+//@   modifies @writes
+//@   ensures true
